@@ -522,13 +522,15 @@ class Engine:
                         if r == root:
                             del st.store[(r, q)]
                     st.store[(root, ())] = ('phi', bb, hv, l)
+                heap_before = {loc: v for loc, v in st.store.items() if loc[0][0] == 'P'}
                 if loops[bb]['heapy']:
                     st.epoch = hv
                     for (r, q) in list(st.store):
                         if r[0] == 'P':
                             st.store[(r, q)] = ('phiheap', bb, hv, (r, q))
                 live = {r[2]: v for (r, q), v in st.store.items() if r[0] == 'L' and r[1] == frame and not q}
-                st.events.append({'kind': 'loop-enter', 'header': bb, 'frame': frame, 'before': before, 'fn': body['path'], 'hv': hv, 'live': live})
+                st.events.append({'kind': 'loop-enter', 'header': bb, 'frame': frame, 'before': before, 'fn': body['path'], 'hv': hv, 'live': live,
+                                  'heap_before': heap_before})
             blk = blocks[bb]
             for s in blk['s']:
                 if s[0] == '=':
